@@ -537,13 +537,13 @@ class List(Sequence):
 
         if self.name:
             regex = re.compile(
-                "^{}(\\d+)(?:{}|$)".format(
+                "^{}(\\d+)(?:{}|\\Z)".format(
                     re_uescape(self.name + sep), re_uescape(sep)
                 ),
                 re.UNICODE,
             )
         else:
-            regex = re.compile("^(\\d+)(?:%s|$)" % (re_uescape(sep)), re.UNICODE)
+            regex = re.compile("^(\\d+)(?:%s|\\Z)" % (re_uescape(sep)), re.UNICODE)
 
         indexes = defaultdict(list)
         prune = self.prune_empty
@@ -659,7 +659,7 @@ class Array(Sequence):
                 self.append(member)
         else:
             regex = re.compile(
-                f"^({re_uescape(self.name)}(?:{re_uescape(sep)}|$))",
+                f"^({re_uescape(self.name)}(?:{re_uescape(sep)}|\\Z))",
                 re.UNICODE,
             )
             for key, value in pairs:
